@@ -61,14 +61,29 @@ def _gen(g):
         return {"kind": "seq", "maxsize": g.choice([None, 0, 1, 2, 3]), "typed": typed,
                 "keys": [g.choice(pool) for _ in range(g.int(1, 16))],
                 "kw": [g.chance(30) for _ in range(16)]}
+    if g.chance(6):
+        # targeted shape (ttl): a cached result expires, one caller starts the refresh, others queue behind it, and the
+        # refresh fails or is cancelled
+        fail = g.choice(["boom", "cancel"])
+        callers = [[0, 0, False], [7, 0, False], [g.int(7, 9), 0, False]]
+        if g.bool():
+            callers.append([g.int(7, 10), g.choice([0, 1]), False])
+        ctl = [["open", 1, 0], ["open", 2, 0], ["sleep", 3]]       # (the second "open" only lets two cycles pass)
+        ctl.append(["open", g.int(3, 5), 0] if fail == "boom" else ["cancel", g.int(3, 5), 1])
+        for _ in range(g.int(0, 3)):
+            ctl.append(g.choice([["open", g.int(0, 2), 0], ["sleep", g.choice([1, 3])]]))
+        return {"kind": "conc", "config": g.choice(["S", "E"]), "maxsize": g.choice([None, 1, 2, 3]), "typed": False,
+                "ttl": 2, "ac": g.chance(30), "outcomes": ["ok", "boom" if fail == "boom" else "ok", "ok", "ok"],
+                "callers": callers, "ctl": ctl, "nest": g.choice([0, 0, 1])}
     typed = g.chance(25)
     nkeys = g.int(2, 4)
     pool = list(range(nkeys)) + ([4, 5] if typed or g.chance(15) else [])
     ncall = g.int(2, 6)
     usekw = g.chance(25)
-    callers = [[g.int(0, 4), g.choice(pool), usekw and g.chance(50)] for _ in range(ncall)]
-    ctl = []
     ttl = g.choice([None, None, None, 2])
+    # with a ttl, calls are spread over more cycles so that some arrive after the controller let time pass
+    callers = [[g.int(0, 12 if ttl else 4), g.choice(pool), usekw and g.chance(50)] for _ in range(ncall)]
+    ctl = []
     for _ in range(g.int(2, 12)):
         k = g.weighted([(60, "open"), (20, "cancel"), (20 if ttl else 4, "sleep")])
         if k == "open":
@@ -145,6 +160,13 @@ def run_conc(case, out, stats):
     async def body(sim):
         sim.nest = case.get("nest", 0)
         loop = sim.loop
+        import os
+        TR = os.environ.get("VF_TRACE")
+
+        def tr(*a):
+            if TR:
+                print(f"[{sim.now():3} t={loop.time():.1f}]", *a)
+
         execs = []                 # {"key","n","gate","state","t_done"}
         running = {}               # canonical key -> executions in progress
         produced = {}              # token -> exec record
@@ -161,6 +183,7 @@ def run_conc(case, out, stats):
             n = len(execs)
             rec = {"key": k, "ck": ck, "n": n, "gate": Event(), "state": "running", "t_done": None}
             execs.append(rec)
+            tr("exec", n, "of", k, "starts")
             sim.progress += 1
             others = [c for c, v in running.items() if v > 0 and c != ck]
             keys_used.add(ck)
@@ -225,12 +248,14 @@ def run_conc(case, out, stats):
             if maxsize is not None and maxsize >= 1 and in_call and len(keys_used | {ck}) > maxsize:
                 f3[0] = True      # a call begins while another is in flight and the cache is (about to be) full
             in_call[cid] = [ck, sim.now(), loop.time(), len(execs)]
+            tr("caller", cid, "calls", k)
             try:
                 with sim.op(cid) as sc:
                     try:
                         v = await (fn(k=k) if usekw else fn(k))
                     finally:
                         meta = in_call.pop(cid)
+                        tr("caller", cid, "call ended")
             except Boom as e:
                 rec = raised.get(id(e))
                 if rec is None or rec["ck"] != ck:
